@@ -4,12 +4,8 @@ import "regexp"
 
 // C19 — feature selection and sorted insertion.
 
-func vGenOrdLoc(name string, L int, rich bool) Location {
-	n := 2
-	if rich {
-		n = 4
-	}
-	switch vChoice(name+".f", n) {
+func vGenOrdForm(name string, L int, form int) Location {
+	switch form {
 	case 0:
 		return vGenAtom(name, L, 4)
 	case 1:
@@ -21,24 +17,28 @@ func vGenOrdLoc(name string, L int, rich bool) Location {
 	}
 }
 
-//verif:harness prop=C19 quick=2 thorough=4
-//verif:bounds LocationLess on triples of locations: quick atoms (4 kinds) plain or complemented, thorough additionally join/order of two ranged/point parts; coordinates symbolic in [0,2^40]
+func vGenOrdLoc(name string, L int, rich bool) Location {
+	n := 2
+	if rich {
+		n = 4
+	}
+	return vGenOrdForm(name, L, vChoice(name+".f", n))
+}
+
+//verif:harness prop=C19 quick=2 thorough=16 timeout=1500
+//verif:bounds LocationLess on triples of locations: quick atoms (4 kinds) plain or complemented, thorough additionally join/order of two ranged/point parts (one shard per form of the first two locations); coordinates symbolic in [0,2^40]
 func VH_C19_locless_order() {
 	L := vIntIn("L", 1, vCap)
 	rich := vTier() == 1
-	sh := vShard(2 + 2*vTier())
-	var a Location
-	switch sh {
-	case 0:
-		a = vGenAtom("a", L, 4)
-	case 1:
-		a = vGenAtom("a", L, 4).Complement()
-	case 2:
-		a = Join(vGenParts("a", 2, L, 2)...)
-	default:
-		a = Order(vGenParts("a", 2, L, 2)...)
+	sh := vShard(2 + 14*vTier())
+	var a, b Location
+	if rich {
+		a = vGenOrdForm("a", L, sh/4)
+		b = vGenOrdForm("b", L, sh%4)
+	} else {
+		a = vGenOrdForm("a", L, sh)
+		b = vGenOrdLoc("b", L, false)
 	}
-	b := vGenOrdLoc("b", L, rich)
 	c := vGenOrdLoc("c", L, rich)
 	vCover("triple")
 	ab, ba := LocationLess(a, b), LocationLess(b, a)
@@ -52,16 +52,18 @@ func VH_C19_locless_order() {
 
 func vFeatTag(k int) Props { return Props{[]string{"tag", string(rune('0' + k))}} }
 
-//verif:harness prop=C19 quick=1 thorough=4
-//verif:bounds FeatureSlice.Insert: tables built by 1..3 (quick) / 1..4 (thorough) insertions from empty; keys from {gene, source}; atom locations (4 kinds) with symbolic coordinates
+//verif:harness prop=C19 quick=1 thorough=6 timeout=1500
+//verif:bounds FeatureSlice.Insert: tables built by 1..3 (quick) / 1..4 (thorough) insertions from empty; keys from {gene, source}; atom locations (4 kinds; thorough shard s uses the first s%4+1 kinds, shards 4..5 make exactly 4 insertions of ranged/point locations; 4 insertions with between/ambiguous locations exceed the time budget) with symbolic coordinates
 func VH_C19_insert_sorted() {
 	L := vIntIn("L", 1, vCap)
-	max := 3
+	sh := 0
 	if vTier() == 1 {
-		max = 4
-		vShard(4)
+		sh = vShard(6)
 	}
-	n := 1 + vChoice("n", max)
+	n := 1 + vChoice("n", 3)
+	if sh >= 4 {
+		n = 4
+	}
 	var ff FeatureSlice
 	var want []Feature
 	for k := 0; k < n; k++ {
@@ -71,7 +73,7 @@ func VH_C19_insert_sorted() {
 		}
 		kinds := 4
 		if vTier() == 1 {
-			kinds = 1 + vShard(4) // thorough: shard s uses the first s+1 atom kinds
+			kinds = 1 + sh%4
 		}
 		f := Feature{key, vGenAtom("f"+string(rune('0'+k)), L, kinds), vFeatTag(k)}
 		before := len(ff)
